@@ -6,9 +6,11 @@ package main
 //   frame/global-reads/<f>      f reads no package-level variable outside the allowed set (streams, exit hook, sentinels)
 //   frame/getenv-callers        os.Getenv is called only by values.SetFromEnv, which is called only by mkOpt and mkArg
 //   frame/no-goroutines/<f>     f starts no goroutine and uses no channel or select (sequential subset)
+//   frame/setbyuser-writer/<f>  only fsm.fillContainers stores through the pointer held in Container.ValueSetByUser
 
 import (
 	"fmt"
+	"go/types"
 	"sort"
 	"strings"
 
@@ -43,13 +45,23 @@ func (x *Exec) frameSweep() {
 			continue
 		}
 		name := shortPkg(pkg) + "." + k[strings.Index(k, "::")+2:]
-		var writes, reads, conc []string
+		var writes, reads, conc, sbu []string
 		for _, b := range fn.Blocks {
 			for _, in := range b.Instrs {
 				switch in := in.(type) {
 				case *ssa.Store:
 					if g, ok := rootOf(in.Addr).(*ssa.Global); ok {
 						writes = append(writes, g.Name()+" at "+x.posStr(in.Pos()))
+					}
+					// a store through the pointer held in Container.ValueSetByUser
+					if ld, ok := in.Addr.(*ssa.UnOp); ok {
+						if fa, ok := ld.X.(*ssa.FieldAddr); ok {
+							if pt, ok := fa.X.Type().Underlying().(*types.Pointer); ok {
+								if stt, ok := pt.Elem().Underlying().(*types.Struct); ok && stt.Field(fa.Field).Name() == "ValueSetByUser" {
+									sbu = append(sbu, x.posStr(in.Pos()))
+								}
+							}
+						}
 					}
 				case *ssa.UnOp:
 					if g, ok := rootOf(in.X).(*ssa.Global); ok && x.repoPkgs[g.Pkg.Pkg.Path()] {
@@ -82,6 +94,7 @@ func (x *Exec) frameSweep() {
 		add("no-global-write/"+name, len(writes) == 0, strings.Join(writes, "; "))
 		add("global-reads/"+name, len(reads) == 0, strings.Join(reads, "; "))
 		add("no-goroutines/"+name, len(conc) == 0, strings.Join(conc, "; "))
+		add("setbyuser-writer/"+name, len(sbu) == 0 || name == "fsm.fillContainers", "writes *ValueSetByUser at "+strings.Join(sbu, "; "))
 	}
 	okGetenv := len(getenvCallers) == 1 && getenvCallers["values.SetFromEnv"]
 	okCallers := true
